@@ -118,7 +118,17 @@ def streams(ctx):
                     allv |= set(vs)
                     last = pi == npages - 1
                     st2 = 200 if (last or rng.chance(5, 6)) else rng.choice([404, 429, 500])
-                    hd2 = "" if last else f'link: <{{BASE}}/repos/x/releases?page={pi + 3}>; rel="next"\r\n'
+                    # GitHub lists prev / next / last / first in one header, in that order from page 2 on: "next" is not the first entry
+                    ents = [f'<{{BASE}}/repos/x/releases?page={pi + 1}>; rel="prev"'] if rng.chance(3, 4) else []
+                    if not last:
+                        ents.append(f'<{{BASE}}/repos/x/releases?page={pi + 3}>; rel="next"')
+                        if rng.chance(1, 2):
+                            ents.append(f'<{{BASE}}/repos/x/releases?page={npages + 1}>; rel="last"')
+                    if rng.chance(1, 2):
+                        ents.append('<{BASE}/repos/x/releases?page=1>; rel="first"')
+                    if rng.chance(1, 4):
+                        ents = rng.shuffle(ents)
+                    hd2 = (rng.choice(["link", "Link"]) + ": " + ", ".join(ents) + "\r\n") if ents else ""
                     extra += [str(st2), hd2, json.dumps([{"tag_name": v, "published_at": None} for v in vs])]
                     if st2 != 200:
                         allv = ("pagefail", st2); break
